@@ -204,11 +204,16 @@ func genOrderDigestFacts() {
 	}
 	// later plain assignments to fields of the literals (details.X = …) would
 	// bypass the literal mapping: list them
-	var fieldAssigns [][2]string
+	var fieldAssigns, varAssigns [][2]string
 	ast.Inspect(so.Body, func(n ast.Node) bool {
 		if as, ok := n.(*ast.AssignStmt); ok && as.Tok == token.ASSIGN && len(as.Lhs) == 1 {
 			if sel, ok := as.Lhs[0].(*ast.SelectorExpr); ok {
 				fieldAssigns = append(fieldAssigns, [2]string{digNodeString(sel), digNodeString(as.Rhs[0])})
+			}
+			// re-assignment of a local after its definition (a local that
+			// feeds a literal may be changed between definition and use)
+			if id, ok := as.Lhs[0].(*ast.Ident); ok {
+				varAssigns = append(varAssigns, [2]string{id.Name, digNodeString(as.Rhs[0])})
 			}
 		}
 		return true
@@ -275,6 +280,8 @@ func genOrderDigestFacts() {
 	l.p("def submitLocals : List (String × String) := %s", leanStrPairs(locals))
 	l.p("/-- `x.f = expr` assignments inside SubmitOrder (fields set after the literals) -/")
 	l.p("def submitFieldAssigns : List (String × String) := %s", leanStrPairs(fieldAssigns))
+	l.p("/-- `local = expr` re-assignments of locals inside SubmitOrder -/")
+	l.p("def submitVarAssigns : List (String × String) := %s", leanStrPairs(varAssigns))
 	l.p("/-- SubmitOrder: order.ChannelType value ↦ auctioneerrpc.OrderChannelType value -/")
 	l.p("def submitChannelType : List (Nat × Nat) := %s", leanPairs(ctPairs))
 	l.p("def submitChannelTypeDefault : List String := %s", leanStrList(ctDefault))
